@@ -281,6 +281,19 @@ func (w *FrameWorld) check(final bool) {
 	if w.finishing || w.P.Flavor == "bindreply" {
 		return
 	}
+	if w.P.Cfg.Extra["hostile"] == 1 {
+		// arbitrary bytes: frames are not judged, only termination and progress
+		zero := 0
+		for _, r := range w.results {
+			if r.Err == nil && r.N == 0 {
+				zero++
+			}
+		}
+		if zero > 2 {
+			w.K.Violate(&Violation{Property: "C09", Class: "spin", Key: kv("where", "STUNConn.ReadFrom"), Detail: "ReadFrom keeps returning 0-byte frames without consuming input"})
+		}
+		return
+	}
 	arrived := w.rd.Arrived
 	complete := 0
 	for i, e := range w.expEnd {
